@@ -1060,3 +1060,122 @@ def os_kill_model(p, model):
     if not model.get("kill0_finds_process", False):
         raise ProcessLookupError(3, "No such process")
     return None
+
+
+# ---------------------------------------------------------------------------
+# C05: process trees on a fake procfs against a reference model
+# ---------------------------------------------------------------------------
+
+def _tree_stat(pid, ppid, start):
+    import random
+    F = stat_fields(random.Random(pid))
+    F[0] = b"S"
+    F[1] = str(ppid).encode()
+    F[19] = str(start).encode()
+    return build_stat(pid, b"p%d" % pid, F)
+
+
+def ref_children(procs, me, recursive, vanished=()):
+    ct = lambda p: procs[p][1]  # noqa: E731
+    kids = lambda p: [c for c in sorted(procs) if procs[c][0] == p and c not in vanished]  # noqa: E731
+    if not recursive:
+        return sorted(c for c in kids(me) if c != me and ct(c) >= ct(me))
+    out, seen, stack = [], {me}, [me]
+    while stack:
+        p = stack.pop()
+        for c in kids(p):
+            if c in seen:
+                continue
+            if ct(c) >= ct(me):
+                seen.add(c)
+                out.append(c)
+                stack.append(c)
+    return sorted(out)
+
+
+@runner("c05:tree")
+def c05_tree(model, meta):
+    import psutil
+    import signal
+    from psutil import _pslinux
+    procs = {int(k): (int(v[0]), int(v[1])) for k, v in model["procs"].items()}
+    me = int(model.get("self", 10))
+    problems = []
+    files = {f"{p}/stat": _tree_stat(p, pp, st) for p, (pp, st) in procs.items()}
+    files["1/stat"] = _tree_stat(1, 0, 1)
+    allp = dict(procs)
+    allp[1] = (0, 1)
+
+    def on_alarm(*a):
+        raise TimeoutError("did not terminate within 5 s")
+
+    signal.signal(signal.SIGALRM, on_alarm)
+    with fake_procfs(files):
+        _pslinux.BOOT_TIME = None
+        psutil._LOWEST_PID = None
+        p = psutil.Process(me)
+        vanish = [int(x) for x in model.get("vanish", []) if int(x) != me and int(x) in procs]
+        real_map = psutil._ppid_map
+
+        def map_then_vanish():
+            m = real_map()
+            for v in vanish:      # the process exits right after the snapshot was taken
+                shutil.rmtree(os.path.join(psutil.PROCFS_PATH, str(v)), ignore_errors=True)
+            return m
+
+        for rec in ((False, True) if not vanish else (True,)):
+            signal.alarm(5)
+            try:
+                if vanish:
+                    with mock.patch.object(psutil, "_ppid_map", map_then_vanish):
+                        got = [c.pid for c in p.children(recursive=rec)]
+                else:
+                    got = [c.pid for c in p.children(recursive=rec)]
+                want = ref_children(allp, me, rec, vanished=vanish)
+                if sorted(got) != want or len(got) != len(set(got)):
+                    problems.append(f"children(recursive={rec}) == {got}, expected {want}")
+            except Exception as e:  # noqa: BLE001
+                problems.append(f"children(recursive={rec}) raised {e!r}")
+            finally:
+                signal.alarm(0)
+        signal.alarm(5)
+        try:
+            if vanish:
+                raise StopIteration
+            par = p.parent()
+            pp = allp[me][0]
+            want = pp if (pp in allp and allp[pp][1] <= allp[me][1] and me != min(allp)) else None
+            if (par.pid if par is not None else None) != want:
+                problems.append(f"parent() == {par}, expected pid {want}")
+        except StopIteration:
+            pass
+        except Exception as e:  # noqa: BLE001
+            problems.append(f"parent() raised {e!r}")
+        finally:
+            signal.alarm(0)
+        _pslinux.BOOT_TIME = None
+        psutil._LOWEST_PID = None
+    return {"env": {}, "result": problems[:3], "exc": None, "verdict": bool(problems), "procs": procs}
+
+
+@search("c05:tree")
+def c05_tree_search(meta, seed, budget):
+    import itertools
+    import random
+    pids = [10, 11, 12, 13]
+    parents = [1, 10, 11, 12, 13, 99]
+    rng = random.Random(seed)
+    combos = list(itertools.product(parents, repeat=4))
+    rng.shuffle(combos)
+    n = 0
+    for pp in combos:
+        for _ in range(2):
+            starts = [rng.choice([100, 200, 300, 400]) for _ in pids]
+            yield {"procs": {str(p): [pp[i], starts[i]] for i, p in enumerate(pids)}, "self": 10}
+            n += 1
+            if n % 3 == 0:
+                yield {"procs": {str(p): [pp[i], starts[i]] for i, p in enumerate(pids)}, "self": 10,
+                       "vanish": [rng.choice([11, 12, 13])]}
+                n += 1
+            if n >= budget:
+                return
